@@ -91,13 +91,14 @@ def models(wd, tier, seed):
 
 FAM = dict(driver="refcount", specdirs=["refcount", "lib"], monitor="RefCountPTrace", property_of=PROPERTY_OF, models=models,
            n_random={"quick": 1200, "thorough": 20000},
+           modes={"thorough": [("r%d" % i, "v%d" % i, 20000) for i in range(1, 4)]},
            x_specs=["refcount/RefCount.tla"], p_monitor="refcount/RefCountP.tla",
            assumptions=["RefCountP encodes the statements with the readings listed in its header comment "
                         "(invalidated = released() called or context changed; 'given' = callback received the value; "
                         "'shortly after' = by the next quiescent point; any resolver call between enter and leave counts as in progress)",
                         "caller contexts are cancelled only while the call is blocked inside the library or inside the Access callback "
                         "(elsewhere Go's select could pick among several ready cases, which the controller cannot prescribe)",
-                        "parent contexts passed to SetContext are never cancelled on their own (not in the properties' quantifiers)"])
+                        "a parent context passed to SetContext is cancelled by the client in a quarter of the seeded executions, while a resolver call is in flight; after that only that call's delivery is still judged"])
 
 
 def run(prop, tier, seed):
